@@ -460,6 +460,19 @@ fn main() {
                         if !(i + 1..j).any(|c| &*stream[c].event_type == "Cancel" && kof(&stream[c]) == kof(a0)) { want.push(vec![i as i64, j as i64]) }
                     }
                 }
+                // the same clause on an unpartitioned engine: keys are ignored
+                let mut plain = SaseEngine::new(pattern()).with_negation("Cancel".to_string(), None);
+                let mut got_u: Vec<Vec<i64>> = Vec::new();
+                for e in &stream { for m in plain.process(e) { got_u.push(pos(&m)) } }
+                let mut want_u: Vec<Vec<i64>> = Vec::new();
+                for (i, a0) in stream.iter().enumerate() {
+                    if &*a0.event_type != "A" { continue }
+                    if let Some(j) = (i + 1..stream.len()).find(|&j| &*stream[j].event_type == "B") {
+                        if !(i + 1..j).any(|c| &*stream[c].event_type == "Cancel") { want_u.push(vec![i as i64, j as i64]) }
+                    }
+                }
+                got_u.sort(); want_u.sort();
+                if got_u != want_u && bad.len() < 3 { bad.push(format!("on {:?}: the unpartitioned engine reports {:?}, the reference gives {:?}", stream.iter().map(|e| e.event_type.to_string()).collect::<Vec<_>>(), got_u, want_u)) }
                 got.sort(); want.sort(); count += 1;
                 if got != want && bad.len() < 3 { bad.push(format!("on {:?}: the partitioned engine reports {:?}, the per-key reference gives {:?}", stream.iter().map(|e| format!("{}(k={:?})", e.event_type, e.get("k").and_then(|v| v.as_int()))).collect::<Vec<_>>(), got, want)) }
             } }
